@@ -12,7 +12,7 @@
    The loops of the C are parametrised by the struct field they follow, exactly like the C's
    own A_AVL_POST(head, tail) macro. *)
 
-From Coq Require Import List PArith FMapPositive Bool.
+From Coq Require Import List PArith ZArith FMapPositive Bool.
 Import ListNotations.
 
 Definition id := positive.
@@ -46,6 +46,16 @@ Definition ids (t : tree) : list id := inorder t.
 Fixpoint mirror (t : tree) : tree :=
   match t with E => E | T l x r => T (mirror r) x (mirror l) end.
 
+(* search-tree order of the keys attached to the ids (what C01/C02 establish for reachable trees) *)
+Fixpoint Bst (key : id -> Z) (t : tree) : Prop :=
+  match t with
+  | E => True
+  | T l x r =>
+      Bst key l /\ Bst key r
+      /\ (forall y, In y (ids l) -> (key y < key x)%Z)
+      /\ (forall y, In y (ids r) -> (key x < key y)%Z)
+  end.
+
 (* ------------------------------------------------------------------ heap *)
 
 Record node : Type := mkNode { nl : option id; nr : option id; np : option id }.
@@ -71,6 +81,21 @@ Fixpoint Repr (rd : id -> option node) (p : option id) (t : tree) : Prop :=
   | T l x r =>
       rd x = Some (mkNode (root_id l) (root_id r) p)
       /\ Repr rd (Some x) l /\ Repr rd (Some x) r
+  end.
+
+(* the heap holds nothing but nodes of t *)
+Definition hsub (h : heap) (t : tree) : Prop := forall x, rdh h x <> None -> In x (ids t).
+
+(* "z is handed out before x" in the sequence L *)
+Definition before (L : list id) (z x : id) : Prop := exists a b, L = a ++ x :: b /\ In z a.
+
+(* in the sequence L every node of t comes after all nodes of its two subtrees *)
+Fixpoint ChildrenFirst (L : list id) (t : tree) : Prop :=
+  match t with
+  | E => True
+  | T l x r =>
+      (forall z, In z (ids l) \/ In z (ids r) -> before L z x)
+      /\ ChildrenFirst L l /\ ChildrenFirst L r
   end.
 
 (* ------------------------------------------------------------------ results *)
@@ -444,7 +469,7 @@ Fixpoint nodupb (l : list id) : bool :=
    contains every allocated node (n = number of allocated nodes, supplied by the driver) *)
 Definition wf_heap (h : heap) (root : option id) (n : nat) : bool :=
   let t := tree_of (rdh h) (S n) root in
-  reprb (rdh h) None t && nodupb (ids t) && Nat.eqb (size t) n
+  oid_eqb (root_id t) root && reprb (rdh h) None t && nodupb (ids t) && Nat.eqb (size t) n
   && Nat.eqb (PositiveMap.cardinal h) n.
 
 Definition heap_add (x : id) (l r p : option id) (h : heap) : heap :=
